@@ -41,7 +41,9 @@ RULE_ADDED = (
               ' '
               "Round 10: the UI vouching for another of the operator's own keys. "
               ' '
-              'Round 11: attestation-key message / quote extended without re-signing. ')
+              'Round 11: attestation-key message / quote extended without re-signing. '
+              ' '
+              'Round 12: ui / signer element signed with the untweaked attestation key. ')
 RULE = RULE + " " + RULE_ADDED.strip()
 ASSUMPTIONS = [
     "stdout of the commands is parsed by label ('UD value:', 'Hash:', ...)",
@@ -120,7 +122,8 @@ LEDGER_VARIANTS = ["genuine", "genuine-reordered", "key-replaced", "btc-key-repl
                    "legacy-len+1", "legacy-len-1", "legacy-len+32", "genuine-odd-paths",
                    "odd-paths-hash-in-numeric-order", "forged-extra-targets",
                    "forged-extra-targets", "flip-signature-extra-targets",
-                   "ui-key-is-another-of-the-operator-keys"]
+                   "ui-key-is-another-of-the-operator-keys",
+                   "app-message-signed-by-the-untweaked-attestation-key"]
 
 
 def tail_bytes(rng, n):
@@ -251,6 +254,18 @@ def ledger_case(acc, rng, variant, tmpdir, case):
         m, f = la.ui_message(rng, g1.pub33(g1.new_key(rng)))
         la.resign(doc, info, "ui", m, rng)
         expect_ok = False
+    elif variant == "app-message-signed-by-the-untweaked-attestation-key":
+        # ui / signer element: tweak (the application's hash) declared, signature made with
+        # the attestation key itself - nothing ties the message to that application
+        for e in doc["elements"]:
+            if e["name"] == rng.choice(["ui", "signer"]) and "tweak" in e:
+                e["signature"] = g1.sign(info["attestation"], bytes.fromhex(e["message"]),
+                                         rng).hex()
+                expect_ok = False
+        if expect_ok:
+            e = [x for x in doc["elements"] if x["name"] == "ui"][0]
+            e["signature"] = g1.sign(info["attestation"], bytes.fromhex(e["message"]), rng).hex()
+            expect_ok = False
     elif variant == "ui-key-is-another-of-the-operator-keys":
         # the UI vouches for one of the operator's own keys - but not the BTC one
         other = rng.choice([p_ for p_ in keys if p_ != la.BTC_PATH])
